@@ -1097,6 +1097,10 @@ def dict_comp(it, n, env, f):
     # symbolic sequence: last write wins
     if g.ifs:
         raise Unsupported("filtered dict comprehension over symbolic sequence")
+    # a scan over reversed(seq) where later writes win = the FIRST occurrence in seq wins
+    first_wins = getattr(coll, "rev_of", None) is not None
+    if first_wins:
+        coll = coll.rev_of
     kk = z3.Int(ctx.fresh_name("kdc"))
     e = Env(parent=env)
     it.assign(g.target, coll.at(kk), e, f)
@@ -1115,19 +1119,20 @@ def dict_comp(it, n, env, f):
     facts = [a for a in full[0] if not a.eq(z3.simplify(in_range(kk, coll.len)))]
     if facts:
         ctx.assumptions.append(z3.ForAll([kk], z3.Implies(in_range(kk, coll.len), z3.And(*facts))))
-    im = IndexMap(it, coll.len, lambda j: subst(kproto, kk, j), lambda j: subst(vproto, kk, j))
+    im = IndexMap(it, coll.len, lambda j: subst(kproto, kk, j), lambda j: subst(vproto, kk, j), first_wins=first_wins)
     it.last_index_map = im        # ghost: lets a contract name the lookup table
     return im
 
 
 class IndexMap:
-    """{key(j): val(j) for j in range(n)} - later entries overwrite earlier ones, so the
-    entry for key x comes from the LAST index j with key(j) == x (assumed semantics of dict
-    comprehension = sequential assignment)."""
-    def __init__(self, it, n, key, val):
+    """{key(j): val(j) for j in range(n)} - later entries overwrite earlier ones, so the entry for key x comes
+    from the LAST index j with key(j) == x (assumed semantics of dict comprehension = sequential assignment).
+    With first_wins (the source was reversed(seq), indices refer to seq) it is the FIRST index."""
+    def __init__(self, it, n, key, val, first_wins=False):
+        from .core import forall
         ctx = it.ctx
-        self.n, self.key, self.val = n, key, val
-        self.last = ctx.fresh_fn("lastidx", V, INT)
+        self.n, self.key, self.val, self.first_wins = n, key, val, first_wins
+        self.last = ctx.fresh_fn("firstidx" if first_wins else "lastidx", V, INT)
         x = z3.Const("x!im", V)
         j = z3.Int("j!im")
         nn = zint(n)
@@ -1135,9 +1140,8 @@ class IndexMap:
         ctx.assumptions.append(z3.ForAll([x], z3.Or(
             z3.And(li(x) == -1),
             z3.And(0 <= li(x), li(x) < nn, key(li(x)) == x)), patterns=[li(x)]))
-        from .core import forall
-        ctx.assumptions.append(forall([j], z3.Implies(
-            z3.And(0 <= j, j < nn), z3.And(li(key(j)) >= j, li(key(j)) < nn)), patterns=[key(j)]))
+        bound = z3.And(li(key(j)) >= 0, li(key(j)) <= j) if first_wins else z3.And(li(key(j)) >= j, li(key(j)) < nn)
+        ctx.assumptions.append(forall([j], z3.Implies(z3.And(0 <= j, j < nn), bound), patterns=[key(j)]))
 
     def has(self, x):
         return self.last(x) >= 0
